@@ -110,7 +110,8 @@ class Context:
                 msg = f"Constant loop detected involving: {varnames}"
                 raise SemanticError(msg, const.loc)
             self.const_workset.add(const)
-            self.const_map[const] = self.eval_const(const.value)
+            value = self.eval_const(const.value)
+            self.const_map[const] = self._fit(value, const.typ, const.loc)
             self.const_workset.remove(const)
         return self.const_map[const]
 
@@ -131,7 +132,11 @@ class Context:
                 "*": operator.mul,
                 "%": const_rem,
             }
-            return ops[expr.op](a, b)
+            value = ops[expr.op](a, b)
+            if hasattr(expr, "typ"):
+                # The operation is done in the type of the expression:
+                value = self._fit(value, expr.typ, expr.loc)
+            return value
         elif isinstance(expr, ast.TypeCast):
             a = self.eval_const(expr.a)
             return self._fit(a, expr.to_type, expr.loc)
